@@ -1,5 +1,5 @@
 """Property -> rule instances (DESIGN section 4). Each entry is a function facts -> [RuleResult]."""
-from . import dim
+from . import dim, atomic, tag
 
 ALGO_FILES = {
     "C09": ("src/algo/mod.rs",),
@@ -83,6 +83,100 @@ for pid, files in ALGO_FILES.items():
                    "(or by the count only where NodeCompactIndexable is required)",
         "not_decided": "that the algorithm's result meets its graph-theoretic specification",
     }
+
+
+def atomic_for(types, floor):
+    def rule(facts):
+        k = ("atomic", facts.source)
+        if k not in _cache:
+            _cache[k] = atomic.run(facts)
+        allr = _cache[k]
+        fm = {}
+        for b in facts.bodies:
+            if atomic.in_scope(b):
+                import re as _re
+                from .core import strip_ref
+                fm[b.npath] = _re.match(r"[\w:]+", strip_ref(b.lty(1))).group(0)
+        r = _filter(allr, lambda fn: fm.get(fn) in types, floor)
+        r.floor_what = "failure exits of fallible mutators"
+        return [r]
+    return rule
+
+
+def tag_rules(facts):
+    k = ("tag", facts.source)
+    if k not in _cache:
+        _cache[k] = tag.run(facts)
+    return _cache[k]
+
+
+def tag_only(funcs):
+    def rule(facts):
+        out = []
+        for r in tag_rules(facts):
+            f = _filter(r, lambda fn: any(fn.endswith("::" + x) for x in funcs), 0)
+            out.append(f)
+        out[0].floor = 4
+        return out
+    return rule
+
+
+STRUCT_FILES = {
+    "C02": ("src/graph_impl/stable_graph/mod.rs",),
+    "C04": ("src/matrix_graph.rs",),
+    "C14": ("src/acyclic",),
+}
+
+PROPS.update({
+    "C01": {
+        "rules": [atomic_for(("graph_impl::Graph",), 5)],
+        "decides": "failure atomicity: every Err / documented-None exit of Graph's &mut self mutators (try_add_node, try_add_edge, "
+                   "try_update_edge, remove_node, remove_edge) is reached with no store through self",
+        "not_decided": "that list surgery in remove_node/remove_edge/change_edge_links preserves the multigraph (inductive shape "
+                       "invariant over runtime-indexed linked lists); iteration order and contents",
+    },
+    "C02": {
+        "rules": [atomic_for(("graph_impl::stable_graph::StableGraph",), 8), tag_rules, dim_in_files(STRUCT_FILES["C02"], 3)],
+        "decides": "failure atomicity of the try_* / remove_* mutators; tagged-slot discipline (no store to next/node of a slot reached "
+                   "through a whole-array loop, a pub parameter or an index_twice pair without a dominating liveness test; no read of "
+                   "next through a pub parameter without one); scratch/visit maps sized by node_bound",
+        "not_decided": "index stability as a whole-history statement; acyclicity/completeness of the free lists (shape invariant)",
+    },
+    "C03": {
+        "rules": [atomic_for(("graphmap::GraphMap",), 3)],
+        "decides": "failure atomicity of remove_node's `false` exit, remove_single_edge and Build::add_edge's None exit",
+        "not_decided": "equality with the reference simple graph; iteration contents",
+    },
+    "C04": {
+        "rules": [atomic_for(("matrix_graph::MatrixGraph",), 5), dim_in_files(STRUCT_FILES["C04"], 2)],
+        "decides": "failure atomicity of try_add_node, try_update_edge, add_or_update_edge, try_remove_edge, Build::add_edge; visit map "
+                   "sized by node_bound",
+        "not_decided": "that extend_flat_square_matrix's in-place relocation preserves (row,col)->value; iterator contents",
+    },
+    "C05": {
+        "rules": [atomic_for(("csr::Csr", "adj::List"), 3)],
+        "decides": "failure atomicity of Csr::try_add_edge / add_edge_ (Err and Ok(false) exits clean)",
+        "not_decided": "row ordering, binary-search/linear agreement, from_sorted_edges acceptance set",
+    },
+    "C14": {
+        "rules": [atomic_for(("acyclic::Acyclic", "acyclic::order_map::OrderMap"), 6), dim_in_files(STRUCT_FILES["C14"], 5)],
+        "decides": "failure atomicity of try_add_edge, try_update_edge, update_ordering, remove_node, remove_edge (rejected insertion / "
+                   "absent node leaves order map and graph untouched); order map and scratch bitsets sized by node_bound",
+        "not_decided": "that Pearce-Kelly reordering yields a topological order; is_valid_edge <=> rejection",
+    },
+    "C17": {
+        "rules": [tag_only(("link_edges",))],
+        "decides": "every endpoint index read from the input passes a liveness test before its adjacency links are written "
+                   "(StableGraph::link_edges)",
+        "not_decided": "value-level round-trip equality; arbitrary byte mutations",
+    },
+    "C19": {
+        "rules": [atomic_for(("unionfind::UnionFind",), 3)],
+        "decides": "failure atomicity of try_union / try_find_mut (out-of-range arguments leave parent/rank untouched; path compression "
+                   "excepted as representative-preserving)",
+        "not_decided": "that the forest represents the generated partition",
+    },
+})
 
 NOT_APPLICABLE = {
     "C13": "VF2 (sub)graph isomorphism is the result of a backtracking search over runtime adjacency; no clause of it is visible "
